@@ -58,6 +58,18 @@ Definition rule_L (g : fsig) : bool :=
   forallb (fun l => (mem_s l (s_fn_lts g) || mem_s l (s_impl_lts g)) &&
                     implb (mem_s l (s_fn_lts g)) (mem_s l (s_in_lts g))) (s_ret_lts g).
 
-Definition sig_ok (g : fsig) : bool := rule_U g && rule_B g && rule_L g.
+(* (S) a handle that holds the UNIQUE borrow of the collection (first lifetime parameter of its impl
+       block: Drain<'a>, IterMut<'a>, OccupiedEntry<'a>, VacantEntryRef<'a, 'b> ...) gives out, through
+       `&self`, only views that re-borrow the handle: the return type does not name that lifetime.
+       (`fn iter(&self) -> Iter<'a, K, V>` on a Drain<'a> would let the Iter outlive the `&self`
+       borrow, so that safe code could advance or drop the Drain while the Iter still points into
+       the table.)  Other lifetimes of the handle (the `'b` of the borrowed query key in
+       VacantEntryRef::key(&self) -> &'b Q) are shared borrows and may be copied out. *)
+Definition recv_shared (r : recv) : bool := match r with RecvRef => true | _ => false end.
+Definition rule_S (g : fsig) : bool :=
+  implb (unique_handle (s_owner g) && recv_shared (s_recv g))
+        (match s_impl_lts g with l :: _ => negb (mem_s l (s_ret_lts g)) | [] => true end).
+
+Definition sig_ok (g : fsig) : bool := rule_U g && rule_B g && rule_L g && rule_S g.
 Definition offenders : list (string * string) :=
   map (fun g => (s_owner g, s_name g)) (filter (fun g => negb (sig_ok g)) gen_sigs).
